@@ -3748,6 +3748,11 @@ fail_response:
   response =
       coap_new_error_response(pdu, COAP_RESPONSE_CODE(resp),
                               &opt_filter);
+#if COAP_ASYNC_SUPPORT
+  /* If handling a separate response, need CON, not ACK response */
+  if (response && async && response->type == COAP_MESSAGE_ACK)
+    response->type = COAP_MESSAGE_CON;
+#endif /* COAP_ASYNC_SUPPORT */
   if (response)
     goto skip_handler;
   coap_delete_string(uri_path);
